@@ -232,7 +232,16 @@ func genC19(r *Rng, e *Emitter, n int) {
 			}
 		}
 		e.tally("op=roundtrip")
-		e.emit("C19.rt", "("+strings.Join(fx, " ")+")", guard(func() string {
+		// the A record's text is the caller's: any printable text (it is data, not a format)
+		aText := "XXXverif"
+		op, in := "C19.rt", "("+strings.Join(fx, " ")+")"
+		if len(flat)%2 == 1 && r.chance(1, 3) {
+			pc := "%"
+			aText += []string{" battery 100" + pc, pc, pc + "d", pc + "s" + pc + "s", " " + pc + "!", " 50" + pc + pc + " ", pc + "-5", pc + "+.3", "{}", "$1", pc + "v" + pc, " {0}", pc + "[1]d", "\\n", "\t"}[r.Intn(15)]
+			op, in = "C19.rta", "("+hex.EncodeToString([]byte(aText))+" "+in+")"
+			e.tally("a-record-text-varied")
+		}
+		e.emit(op, in, guard(func() string {
 			// half of the tracks are written by one long-lived Encoder whose buffer the caller empties
 			// between tracks: every file it writes stands on its own
 			if len(flat)%2 == 0 {
@@ -250,7 +259,7 @@ func genC19(r *Rng, e *Emitter, n int) {
 				return fmt.Sprintf("(ok %s %s)", hexS(b), sxCoord(tr.LineString.FlatCoords()))
 			}
 			var buf bytes.Buffer
-			if err := igc.NewEncoder(&buf, igc.A("XXXverif")).Encode(geom.NewLineStringFlat(geom.Layout(5), flat)); err != nil {
+			if err := igc.NewEncoder(&buf, igc.A(aText)).Encode(geom.NewLineStringFlat(geom.Layout(5), flat)); err != nil {
 				return "(err other)"
 			}
 			rd, done := c19Reader(buf.Bytes())
